@@ -66,10 +66,8 @@ MODELLED, NOT VERIFIED
 FINDINGS (known_findings.d/C16.json)
   fixed 70fa588  -N**2 parsed as (-N)**2                      fixed b337019  ceiling/Abs/sign not parseable
   fixed 417b84b  simplify() returned Piecewise (text not parseable; ZeroDivisionError from the unused branch)
-  known sympy-simplify-raises: sympy.simplify raises (ValueError "nan is not comparable", PrecisionExhausted) on
-       floor(Min(N, sign(3 - N))/batch) and similar; SymbolicDim.simplify propagates it.  Attributed only when
-       sympy.simplify ALONE raises the same exception class on the same constructor tree.  Proposed fix:
-       proposed_fixes/C16-simplify-best-effort.diff (return the unsimplified dimension on any SymPy failure).
+  fixed 6138197  simplify() propagated exceptions of sympy.simplify (ValueError "nan is not comparable",
+       PrecisionExhausted) on floor(Min(N, sign(3 - N))/batch) and similar; now best effort (unsimplified dim).
   known sympy-autoeval-min/-max/-mod: SymPy 1.14 itself evaluates Min(3, floor(3/(batch*x1))) to 3,
        Max(K, K/Max(D, K)) at K=1,D=2 to 1/2, Mod(-_d*Mod(_d, a), a) to (a-1)*Mod(_d**2, a).  Attribution rule: a
        failure is one of these only if every minimal failing subtree is rooted at that operator AND SymPy alone
